@@ -102,6 +102,29 @@ def check_synchronize(ctx, m):
               'self.%s assigned once, in __init__, from threading.(R)Lock()' % lockattr,
               'lock field is not assigned exactly once in __init__ from threading.RLock()/Lock(): stores in %s'
               % [s[0] for s in stores])
+    # the lock is held for the whole request: nothing but the `with` of _synchronize touches it (no release() / acquire() that would open the
+    # critical section in the middle of a request, no hand-over to other code)
+    la = lockattr or '_lock'
+    other_uses = []
+    for meth, f2 in sorted(m.methods.items()):
+        for n in ast.walk(f2):
+            if is_self_attr(n, la) and isinstance(n.ctx, ast.Load):
+                p_ = getattr(n, '_parent', None)
+                in_sync_with = meth == '_synchronize' and isinstance(p_, ast.withitem)
+                if not in_sync_with:
+                    other_uses.append('%s: %s' % (meth, short(p_ if p_ is not None else n, 60)))
+    # methods expanded into their callers are listed with the callers; raw class body too (helpers not reachable from handlers)
+    cls_ = m.cls if hasattr(m, 'cls') else None
+    if cls_ is not None:
+        for f2 in [x for x in cls_.body if isinstance(x, ast.FunctionDef)]:
+            for n in ast.walk(f2):
+                if is_self_attr(n, la) and isinstance(n.ctx, ast.Load) and not (f2.name == '_synchronize'):
+                    p_ = getattr(n, '_parent', None)
+                    txt = '%s: %s' % (f2.name, short(p_ if p_ is not None else n, 60))
+                    if txt not in other_uses:
+                        other_uses.append(txt)
+    ctx.check(not other_uses, rule, 'KmipEngine.%s|used-only-by-synchronize' % la, site, 'self.%s is only entered by the `with` of _synchronize' % la,
+              'the engine lock is used outside the `with` of _synchronize (%s): releasing or re-acquiring it inside a request opens the critical section while per-request state is live' % other_uses[:3])
     return lockattr
 
 
@@ -211,6 +234,45 @@ def build_once_cache(fn, store, classnames):
             return all(constant(x, node, depth + 1) for x in ast.iter_child_nodes(e) if isinstance(x, ast.expr))
         return False
     return constant(asg.value, nd)
+
+
+def check_one_engine_for_all_sessions(ctx):
+    """C10.R5: every session is handed the same engine object."""
+    ctx.rule('C10.R5', 'the server creates one KmipEngine (a single construction site in kmip/services/server/server.py, stored in one instance field) and every KmipSession it starts is handed that field: the lock that serialises requests lives in the engine object, so sessions with engines of their own would work on the common database without any mutual exclusion')
+    t = ctx.src.tree(SERVER)
+    ctor_sites = []
+    for q, fn, cls in all_functions(t):
+        for c in walk_local(fn):
+            if isinstance(c, ast.Call) and (call_name(c) or '').split('.')[-1] == 'KmipEngine':
+                ctor_sites.append((q, fn, c))
+    site0 = '%s KmipServer' % SERVER
+    ctx.check(len(ctor_sites) == 1, 'C10.R5', 'KmipServer|one-engine-construction-site', site0, 'one KmipEngine(...) construction in the server module', 'the server module constructs KmipEngine at %d places: %s' % (len(ctor_sites), [q for q, _, _ in ctor_sites]))
+    field = None
+    if len(ctor_sites) == 1:
+        q, fn, c = ctor_sites[0]
+        p = getattr(c, '_parent', None)
+        if isinstance(p, ast.Assign) and len(p.targets) == 1 and is_self_attr(p.targets[0]):
+            field = p.targets[0].attr
+            # not inside a loop / not in the per-connection path
+            in_loop = False
+            x = p
+            while getattr(x, '_parent', None) is not None and x._parent is not fn:
+                x = x._parent
+                if isinstance(x, (ast.For, ast.While)):
+                    in_loop = True
+            ctx.check(not in_loop and 'connection' not in fn.name, 'C10.R5', 'KmipServer.%s|engine-built-once' % fn.name, '%s:%s %s' % (SERVER, c.lineno, q), 'the engine is built once at start-up and kept in self.%s' % field,
+                      'the engine is built inside a loop or in the per-connection path')
+        else:
+            ctx.fail('C10.R5', 'KmipServer|engine-kept-in-a-field', '%s:%s %s' % (SERVER, c.lineno, q), 'the constructed engine is not stored in an instance field of the server (it is handed on or returned: every caller gets an engine of its own)')
+    n = 0
+    for q, fn, cls in all_functions(t):
+        for c in walk_local(fn):
+            if isinstance(c, ast.Call) and (call_name(c) or '').split('.')[-1] == 'KmipSession':
+                n += 1
+                a0 = c.args[0] if c.args else next((k.value for k in c.keywords if k.arg == 'engine'), None)
+                ctx.check(field is not None and is_self_attr(a0, field), 'C10.R5', '%s|session-gets-the-shared-engine' % q, '%s:%s %s' % (SERVER, c.lineno, q), 'KmipSession(self.%s, ...)' % field,
+                          'a session is started with %s instead of the one engine the server holds (self.%s)' % (U(a0) if a0 is not None else 'no engine', field))
+    ctx.count('session_construction_sites', n, 1)
 
 def run(ctx):
     src = ctx.src
@@ -391,6 +453,7 @@ def run(ctx):
     ctx.check(len(names) == 3, 'C10.R4', 'KmipSession._handle_message_loop|result-triple', '%s:%s' % (SESSION, pr_calls[0].lineno),
               'response, size limit and version are taken from the locked call result: %s' % names,
               'process_request result is not unpacked into (response, max size, version)')
+    check_one_engine_for_all_sessions(ctx)
     ctx.not_decided += ["SQLite/SQLAlchemy thread-safety with check_same_thread=False (single writer under the lock is assumed)",
                         "fairness/ordering of lock acquisition between sessions"]
     ctx.assumptions += ["threading.RLock is a mutual-exclusion lock", "no monkey-patching of KmipEngine at run time",
